@@ -305,6 +305,11 @@ def _gen_dec(rng, n, info):
         inf = list(info if info is not None else infos[i % 4])
         k = _key(rng)
         p = [rng.randrange(256) for _ in range(i % 50)]
+        if i % 3 == 0 and p:
+            # plaintexts that END in the very byte PKCS7 will append (16 - len % 16): an unpadder that strips by value eats them
+            pad = 16 - len(p) % 16
+            for j_ in range(rng.choice([1, 1, 2, min(len(p), 5)])):
+                p[len(p) - 1 - j_] = pad
         c = media_encrypt(p, k, inf)
         mode = i % 6
         if mode == 1:                       # single byte corruption anywhere (ciphertext or tag)
